@@ -13,6 +13,8 @@ ASSUMPTIONS = [
     "reals, not floats; contraction off (eigh cut)",
     "the all-zero rejection path is cut after the guard (subject of C17)",
     "beam splitter operand binding is checked in C11 (needs the expm treatment)",
+    "engine E2 (CrossHair): apply_operator_vector/_matrix with symbolic n <= 5 (4 for two operands at matrix level) and symbolic "
+    "operand positions, per-condition timeout 90 s, reachability twin refuted",
 ]
 BOUNDS = {
     "quick": "2 envelopes (Fock cut-off 2) + 1 custom state (dim 2); operands: ordered pairs of {p0,p1,c0}; layouts: own / combined "
@@ -73,6 +75,10 @@ def cases(tier):
     for lid, w in w3:
         for o in orders:
             out.append({"id": f"CSWAP/{lid}/{','.join(o)}", "world": w, "op": "CSWAP", "operands": list(o)})
+    # engine E2: the operand-order aware einsum generators with SYMBOLIC numbers of subsystems and operand positions
+    for fn in ("apply_operator_vector_two", "apply_operator_vector_one", "apply_operator_matrix_two", "apply_operator_matrix_one"):
+        out.append({"id": f"crosshair/{fn}", "op": "crosshair", "fn": fn})
+    out.append({"id": "crosshair/reachability_twin", "op": "crosshair", "fn": "reachability_twin"})
     return out
 
 
@@ -102,6 +108,9 @@ def scenario(B, case):
     from symx.explore import Cut
     from symx.world import World
 
+    if case["op"] == "crosshair":
+        return cm.crosshair_condition(B, "einsum_conditions.py", case["fn"],
+                                      expect="refuted" if case["fn"] == "reachability_twin" else "confirmed")
     W = World(B, case["world"])
     ops_ = [W.sub(n) for n in case["operands"]]
     g = case["op"]
